@@ -25,3 +25,64 @@ def run_body(fn, args, kw=None):
         return vc.outcome_of(lambda: I.call_function(fn, args, kw or {}))
     finally:
         I.INLINE.discard(fn)
+
+
+# ------------------------------------------------------------------------------------------------- class selection
+import json
+import os
+
+HERE = os.path.dirname(os.path.dirname(os.path.abspath(__file__)))
+
+
+def class_key(c):
+    return '%s.%s' % (c.__module__.split('.', 1)[1], c.__name__)
+
+
+def load_class_table():
+    p = os.path.join(HERE, 'checks', 'classes.json')
+    return json.load(open(p)) if os.path.exists(p) else {}
+
+
+def select_classes(classes, tier, prop):
+    """classes of this property's scope: all binary classes except those listed (with a reason) in checks/classes.json;
+    entries may restrict a class to the thorough tier when its exploration is slow"""
+    table = load_class_table()
+    out = []
+    for c in classes:
+        ent = table.get(class_key(c), {})
+        if prop in ent.get('skip', {}) or '*' in ent.get('skip', {}):
+            continue
+        if tier == 'quick' and (prop in ent.get('thorough_only', []) or '*' in ent.get('thorough_only', [])):
+            continue
+        out.append(c)
+    return out
+
+
+def uncovered_report(all_classes, selected):
+    table = load_class_table()
+    sel = set(selected)
+    out = []
+    for c in all_classes:
+        if c not in sel:
+            ent = table.get(class_key(c), {})
+            reasons = ent.get('skip', {})
+            out.append('%s: %s' % (class_key(c), '; '.join('%s: %s' % kv for kv in reasons.items()) or 'thorough tier only'))
+    from checks import census
+    text = [c for c in census.concrete_parsables() if census.is_text(c)]
+    out.append('text-layer classes (not covered by this proof): %d classes: %s' % (len(text), ', '.join(sorted(class_key(c) for c in text))))
+    return out
+
+
+_SAMPLES = None
+
+
+def samples(cls):
+    """byte strings that the class accepts, harvested from the repository's own default constructors where they exist
+    (only used to seed the native witness search; never part of a proof)"""
+    out = []
+    try:
+        obj = cls()
+        out.append(bytes(obj.compose()))
+    except Exception:
+        pass
+    return out
